@@ -683,7 +683,10 @@ class PhaseField(_Simu):
         ):
             # It's really useful to do this otherwise when we calculate psiP there will be a problem
             # (restarted as in the mesh setter: an iteration saved before the first Solve has no shape to give)
-            self.__old_psiP_e_pg = {}
+            if "history" not in results:
+                # results saved without their history field: it restarts from the restored state.
+                # Otherwise the restored history is kept: it is the lower bound of psi+ (irreversibility)
+                self.__old_psiP_e_pg = {}
             # update psi+ with the current state
             self.__old_psiP_e_pg = {
                 groupElem.elemType: self.__Calc_psiPlus_e_pg(groupElem)
